@@ -50,6 +50,8 @@ def generate(ctx):
                 w = util.small_rationals(rng, wshape).tolist()
                 yield 'cadv', {'b': b, 'x': x, 'w': w, 'wshape': wshape, 'axis': axis, 'bv': bool(rng.integers(0, 2))}
                 yield 'upwind', {'b': b, 'x': x, 'w': w, 'wshape': wshape, 'axis': axis}
+            if r == 0:
+                yield 'transforms', {'b': util.uneven_boundaries(rng, K).tolist(), 'x': util.small_rationals(rng, (K, 2)).tolist(), 'w': util.small_rationals(rng, (max(K - 1, 0), 2)).tolist()}
             if r == 0 and K >= 2:
                 # integer-typed data (a legitimate input: the routines must promote, not truncate)
                 xi = rng.integers(-9, 10, size=(K, 2)).tolist(); wi = rng.integers(-9, 10, size=(K - 1, 2)).tolist()
@@ -267,6 +269,40 @@ def r_long_axis(ctx, a):
     ctx.oracle_close(f'get_geopotential_diff = R * trapezoid of T in log sigma (K={K})', gd[:, 0, :], a['R'] * ref, scale=gscale)
 
 
+def r_transforms(ctx, a):
+    """The same routines called eagerly on jax arrays, on plain numpy arrays, under jit, under vmap over a leading batch
+    axis, and differentiated (the operators are linear in the data: jvp along v = the operator applied to v)."""
+    jnp, sc, jnu, pe = J()
+    import jax
+    c = _coords(a['b']); K = c.layers
+    x = np.asarray(a['x'], dtype=np.float64); w = np.asarray(a['w'], dtype=np.float64).reshape(max(K - 1, 0), x.shape[1])
+    c2c = np.abs(c.center_to_center).min() if K > 1 else 1.0
+    S = float(np.abs(x).sum() + 1) * float(np.abs(w).max() + 1 if w.size else 1) / c2c * max(float(np.abs(np.log(c.centers)).max()), 1.0)
+    fns = [('cumulative_sigma_integral', lambda q: sc.cumulative_sigma_integral(q, c, axis=0)),
+           ('cumulative_sigma_integral(upward)', lambda q: sc.cumulative_sigma_integral(q, c, axis=0, downward=False)),
+           ('sigma_integral', lambda q: sc.sigma_integral(q, c, axis=0)),
+           ('cumulative_log_sigma_integral', lambda q: sc.cumulative_log_sigma_integral(q, c, axis=0)),
+           ('cumulative_log_sigma_integral(upward)', lambda q: sc.cumulative_log_sigma_integral(q, c, axis=0, downward=False)),
+           ('centered_difference', lambda q: sc.centered_difference(q, c, axis=0)),
+           ('centered_vertical_advection', lambda q: sc.centered_vertical_advection(jnp.asarray(w), q, c, axis=0)),
+           ('upwind_vertical_advection', lambda q: sc.upwind_vertical_advection(jnp.asarray(w), q, c, axis=0)),
+           ('cumsum[dot]', lambda q: jnu.cumsum(q, axis=0, method='dot')), ('reverse_cumsum[dot]', lambda q: jnu.reverse_cumsum(q, axis=0, method='dot'))]
+    if K == 1:
+        fns = [f for f in fns if 'advection' not in f[0] and f[0] != 'centered_difference']
+    xb = np.stack([x, -0.5 * x + 0.25, 2.0 * x[::-1]])                      # a batch with different content per slice
+    for name, f in fns:
+        base = np.asarray(f(jnp.asarray(x)), dtype=np.float64)
+        ctx.oracle_close(f'{name}: numpy input gives the result of the jax-array input', np.asarray(f(x), dtype=np.float64), base, scale=S)
+        ctx.oracle_close(f'{name}: jit-compiled = eager', np.asarray(jax.jit(f)(jnp.asarray(x)), dtype=np.float64), base, scale=S)
+        vb = np.asarray(jax.vmap(f)(jnp.asarray(xb)), dtype=np.float64)
+        per = np.stack([np.asarray(f(jnp.asarray(t)), dtype=np.float64) for t in xb])
+        ctx.oracle_close(f'{name}: vmap over a leading batch axis = slice by slice', vb, per, scale=3 * S)
+        v = jnp.asarray(xb[1])
+        _, jv = jax.jvp(f, (jnp.asarray(x),), (v,))
+        lin = np.asarray(f(v), dtype=np.float64) - np.asarray(f(jnp.zeros_like(v)), dtype=np.float64)
+        ctx.oracle_close(f'{name}: jvp along v = operator applied to v (affine in the data)', np.asarray(jv, dtype=np.float64), lin, scale=3 * S)
+
+
 def r_int_data(ctx, a):
     """Same routines on integer-typed arrays: results must equal those on the float copy of the data."""
     jnp, sc, jnu, pe = J()
@@ -321,4 +357,4 @@ def r_geo(ctx, a):
 
 
 RUNNERS = {'equidistant': r_equidistant, 'derived': r_derived, 'accept': r_accept, 'cumint': r_cumint, 'cumlog': r_cumlog, 'cdiff': r_cdiff,
-           'cadv': r_cadv, 'upwind': r_upwind, 'geo': r_geo, 'int_data': r_int_data, 'long_axis': r_long_axis}
+           'cadv': r_cadv, 'upwind': r_upwind, 'geo': r_geo, 'int_data': r_int_data, 'long_axis': r_long_axis, 'transforms': r_transforms}
